@@ -110,16 +110,61 @@ example : segsOK [⟨true, [[.write .mask .rebind]]⟩, ⟨false, [[.ret]]⟩] =
 
 example : ∃ m ∈ loopTable, ∃ segs ∈ m.2, segs.any (·.isLoop) = true := by decide
 
-/-- the mutator steps the history theorems speak about: a path of the regenerated table on which the mutator
-    returns (or raises on a covered path), or ANY unrolling of a segmented path of `loopTable` -/
+/-! #### exceptional exits: an exception that leaves a mutator in the middle of a path -/
+
+/-- REVIEWED list of helpers whose possible exception is NOT covered (they are called after the in-place operators
+    have started to write and before the final `clear`; each can only fail on input that the validation phase of
+    the same path has already excluded — argued, not proved):
+    * `_require_compatible_deriv` (inside `insert_derivs`): the derivatives come from `_add_derivs/_sub_derivs/
+      _mul_derivs` of operands that passed `_require_broadcast_into` and the numerator/denominator checks;
+    * `Units.mul_units` / `Units.div_units`: raise only through the `Units` constructor on malformed exponents;
+      `_require_units_allowed` ran before;
+    * `Qube._dtype` (in `_new_values_`/`_set_values_`): raises only for a dtype kind other than bool/int/float;
+    * `Qube.remask` (in `require_writable`, re-entered through `delete_derivs`): normalises the object's own mask. -/
+def exemptExits : List String :=
+  ["Qube._require_compatible_deriv", "Units.mul_units", "Units.div_units", "Qube._dtype", "Qube.remask"]
+
+-- FULL: the same with `exemptExits = []`.
+/-- T2: at EVERY point of every path of every public mutator where a helper that can raise is called (a polymath
+    function with an explicit `raise`, followed through `self.`/`Class.`/`super()` calls and constructors), or where
+    NumPy can refuse the in-place update of the values, nothing is stale — except at the reviewed sites. -/
+theorem policy_exceptional_exits_partial :
+    ∀ m ∈ publicTable, ∀ es ∈ m.2, pathExitsOK exemptExits es = true := by
+  have h : (publicTable.all fun m => m.2.all (pathExitsOK exemptExits)) = true := by decide
+  intro m hm es hes
+  exact (List.all_eq_true.mp ((List.all_eq_true.mp h) m hm)) es hes
+
+/-- … and in every iteration of every loop -/
+theorem loop_exceptional_exits_partial :
+    ∀ m ∈ loopTable, ∀ segs ∈ m.2, segsAllExitsOK exemptExits segs = true := by
+  have h : (loopTable.all fun m => m.2.all (segsAllExitsOK exemptExits)) = true := by decide
+  intro m hm segs hs
+  exact (List.all_eq_true.mp ((List.all_eq_true.mp h) m hm)) segs hs
+
+example : ∃ m ∈ publicTable, ∃ es ∈ m.2, es.any (fun e => match e with | .mayRaise _ => true | _ => false) = true ∧
+    es.any (· == .write .mask .rebind) = true := by decide
+
+/-- an exit after the mask has been written and before the clear is rejected -/
+example : pathExitsOK [] [.write .mask .rebind, .mayRaise "helper", .cacheClear, .ret] = false := by decide
+
+/-- the mutator steps the history theorems speak about:
+    * a path of the regenerated table on which the mutator returns (or raises on a covered path),
+    * ANY unrolling of a segmented path of `loopTable` (every number of iterations),
+    * the prefix of either that an exception cuts off at a `mayRaise` point whose site is not in `exemptExits`. -/
 def Admissible (st : Step) : Prop :=
   st.admissible publicTable = true ∨
-  ∃ es post fills, st = .events es post fills ∧ ∃ m ∈ loopTable, ∃ segs ∈ m.2, Expands segs es
+  (∃ es post fills, st = .events es post fills ∧ ∃ m ∈ loopTable, ∃ segs ∈ m.2, Expands segs es) ∨
+  (∃ pre rest site post fills, st = .events pre post fills ∧ exemptExits.contains site = false ∧
+    ((∃ m ∈ publicTable, (pre ++ .mayRaise site :: rest) ∈ m.2) ∨
+     (∃ m ∈ loopTable, ∃ segs ∈ m.2, Expands segs (pre ++ .mayRaise site :: rest))))
 
 theorem admissible_covered_all {st : Step} (h : Admissible st) : st.covered publicTable = true := by
-  rcases h with h | ⟨es, post, fills, rfl, m, hm, segs, hs, he⟩
+  rcases h with h | ⟨es, post, fills, rfl, m, hm, segs, hs, he⟩ | ⟨pre, rest, site, post, fills, rfl, hsite, h⟩
   · exact admissible_covered h
   · exact policy_covers_all_iterations m hm segs hs es he
+  · rcases h with ⟨m, hm, hes⟩ | ⟨m, hm, segs, hs, he⟩
+    · exact pathExitsOK_prefix exemptExits pre rest site (policy_exceptional_exits_partial m hm _ hes) hsite
+    · exact segsAllExits_prefix exemptExits (loop_exceptional_exits_partial m hm segs hs) he hsite
 
 /-! #### the invariant, for histories of any length -/
 
